@@ -242,3 +242,51 @@ pub fn unescape_cmd(line: &str) -> String {
 pub fn unescape_cmd(_line: &str) -> String {
     "NOHOOK".into()
 }
+
+/// request: `<pos> <text-hex>`; reply `<line>:<col> <line>:<col>` (Pair::line_col through PairsBuilder, Position::line_col)
+pub fn linecol(line: &str) -> String {
+    let (p, t) = line.split_once(' ').unwrap();
+    let pos: usize = p.parse().unwrap();
+    let text = unhex(t.trim());
+    guarded(move || {
+        let pairs = pest::iterators::PairsBuilder::new(&text).rule(0u8, pos, pos).build();
+        let a = pairs.peek().unwrap().line_col();
+        let b = pest::Position::new(&text, pos).unwrap().line_col();
+        format!("{}:{} {}:{}", a.0, a.1, b.0, b.1)
+    })
+    .unwrap_or_else(|m| format!("PANIC {}", m.replace('\n', " ")))
+}
+
+/// request: a Unicode property name as accepted by pest::unicode::by_name; reply: the maximal ranges of scalar values
+/// for which the *compiled* property function is true, `a-b,c-d,..` (hex), or NONE
+pub fn unicode_ranges(line: &str) -> String {
+    let name = line.trim().to_string();
+    guarded(move || {
+        let f = match pest::unicode::by_name(&name) {
+            Some(f) => f,
+            None => return "NONE".to_string(),
+        };
+        let mut out: Vec<String> = Vec::new();
+        let mut start: Option<u32> = None;
+        let mut prev = 0u32;
+        for cp in 0..=0x10FFFFu32 {
+            let hit = char::from_u32(cp).map(|c| f(c)).unwrap_or(false);
+            match (hit, start) {
+                (true, None) => start = Some(cp),
+                (false, Some(s)) => {
+                    out.push(format!("{s:x}-{prev:x}"));
+                    start = None;
+                }
+                _ => {}
+            }
+            if hit {
+                prev = cp;
+            }
+        }
+        if let Some(s) = start {
+            out.push(format!("{s:x}-{prev:x}"));
+        }
+        format!("OK {}", out.join(","))
+    })
+    .unwrap_or_else(|m| format!("PANIC {}", m.replace('\n', " ")))
+}
